@@ -47,36 +47,36 @@ var cur *vrun
 var errPeer = errors.New("simulated peer failure")
 
 type vrun struct {
-	sc      *bw.Scenario
-	va      *bw.Variant
-	vi      int
-	w       *world
-	log     *simkit.Log
-	out     *simkit.Outcome
-	sched   *simkit.Sched
-	inTasks bool
-	target  string
-	calls   []Call
-	trace   []TraceEv
-	siteN   map[string]int
-	cancels map[int]context.CancelFunc // per task
-	pkgAddr []sourceaddrs.RemotePackage
-	regAddr []regaddr.ModulePackage
-	diagsSeen map[string][]string // diag id -> where it was delivered ("tracer", "add:<i>")
-	emitted []emitted
-	probe   bool
-	probeOpenOK []string
-	tmpDirs map[string]bool
-	faultsFired map[string]int
+	sc           *bw.Scenario
+	va           *bw.Variant
+	vi           int
+	w            *world
+	log          *simkit.Log
+	out          *simkit.Outcome
+	sched        *simkit.Sched
+	inTasks      bool
+	target       string
+	calls        []Call
+	trace        []TraceEv
+	siteN        map[string]int
+	cancels      map[int]context.CancelFunc // per task
+	pkgAddr      []sourceaddrs.RemotePackage
+	regAddr      []regaddr.ModulePackage
+	diagsSeen    map[string][]string // diag id -> where it was delivered ("tracer", "add:<i>")
+	emitted      []emitted
+	probe        bool
+	probeOpenOK  []string
+	tmpDirs      map[string]bool
+	faultsFired  map[string]int
 	parserPanics []string
-	capHit  bool
+	capHit       bool
 }
 
 type emitted struct {
 	ID, Sev, File, Ctx string
-	Pkg  int
-	Task int
-	Seq  int
+	Pkg                int
+	Task               int
+	Seq                int
 }
 
 func (r *vrun) task() int {
